@@ -155,8 +155,8 @@ Hypothesis H_place : forall s m typ pr price offer fee now s' P,
   fee = fee_amt (pr_fee_rate P) offer -> typ = 1 \/ typ = 2 ->
   place s m typ pr price offer fee now = Ok s' -> I s'.
 Hypothesis H_drop_mm : forall s app owner pair, I s -> I (drop_mm s app owner pair).
-Hypothesis H_mm_tail : forall s m pr bt st now s',
-  I s -> find_pair (mm_app m) (mm_pair m) (pairs s) = Some pr ->
+Hypothesis H_mm_tail : forall s m pr bt st now s' P,
+  I s -> get_params s (mm_app m) = Some P -> find_pair (mm_app m) (mm_pair m) (pairs s) = Some pr ->
   existsb (fun t : Z * Z * Z => snd t <? 0) (bt ++ st) = false ->
   mm_tail s m pr bt st now = Ok s' -> I s'.
 Hypothesis H_fill_book : forall s k o g matched paid recv,
@@ -256,7 +256,7 @@ Lemma sw_mm_order s m now s' : I s -> mm_order s m now = Ok s' -> I s'.
 Proof.
   intros HI H. unfold mm_order in H.
   destruct (negb (vb_mm m)); [discriminate|].
-  destruct (get_params s (mm_app m)) as [P|]; [|discriminate].
+  destruct (get_params s (mm_app m)) as [P|] eqn:EP; [|discriminate].
   repeat match type of H with (if ?c then _ else _) = _ => destruct c; [discriminate|] end.
   destruct (find_pair (mm_app m) (mm_pair m) (pairs s)) as [pr|] eqn:Epr; [|discriminate].
   destruct (match p_last_price pr with Some lp => _ | None => _ end) as [lo hi].
@@ -267,8 +267,10 @@ Proof.
   repeat match type of H with (if ?c then _ else _) = _ => destruct c; [discriminate|] end.
   unfold obind in H.
   destruct (cancel_mm_inner s _ _ pr true) as [s1| |] eqn:E1; try discriminate.
-  eapply (H_mm_tail s1 m pr bt stt now s'); [eapply sw_cancel_mm_inner; eauto| |exact Eneg|exact H].
-  destruct (cancel_mm_inner_keepp _ _ _ _ _ _ E1) as [-> _]. exact Epr.
+  destruct (cancel_mm_inner_keepp _ _ _ _ _ _ E1) as [Kp Ka].
+  eapply (H_mm_tail s1 m pr bt stt now s' P); [eapply sw_cancel_mm_inner; eauto| | |exact Eneg|exact H].
+  - unfold get_params in *. rewrite Ka. exact EP.
+  - rewrite Kp. exact Epr.
 Qed.
 
 (* ---- batch execution ---- *)
